@@ -19,10 +19,12 @@ INLINE = ["*em*", "**strong**", "`code`", "`a b`", "[link](http://x.y)", "[l k](
           "`超时timeout`", "`a `", "` b`", "`> `", "[文档](http://x.y/部署v2/ \"标题T\")", "<span title=\"中文abc\">", "<http://x.y/部署v2>", "![img](i/图a.png)",
           "\\*lit\\*", "2023\\.", "7\\)", "\\# no", "\"quoted\"", "it's", "wait...", "a_b_c", "2*3*4", "&amp;", "x<y",
           # delimiter runs whose flanking depends on the neighbouring character (also a line break), intraword and nested emphasis
-          "[sp](<b c>)", "[pa](<x(y>)", "![im](<a b.png> \"t\")", "[bal](http://x.y/z_(w))",
+          "ico\ue000n", "\ue001\ue002\ue003x", "[sp](<b c>)", "[pa](<x(y>)", "![im](<a b.png> \"t\")", "[bal](http://x.y/z_(w))",
           "~(old)~", "~was it?~", "foo***bar***baz", "a*b*c", "***both***"]
 TAGS = ["{% t %}", "{% /t %}", "{{ v }}", "{# c #}", "<!-- h -->", "{% a x=\"1 2\" %}", "{% t %}{% /t %}", "<!-- a --><!-- /a -->",
-        "{% p l=\"50% used\" %}", "{{ i % 2 }}", "{# 10 # 2 #}", "<!-- a - b -> c -->"]
+        "{% p l=\"50% used\" %}", "{{ i % 2 }}", "{# 10 # 2 #}", "<!-- a - b -> c -->",
+        # dots and quotes inside tags are template data, never typography
+        "{% x \"foo...bar\" %}", "{{ a...b }}", "{# wait... #}", "<!-- c...d -->"]
 HAZ_UNESCAPED = ["---", "===", "```", "~~~", "***", "___", ">q", "- - -", "----"]     # known finding C01-escape-hazards
 
 
@@ -176,6 +178,9 @@ def document(rnd, with_tags=False, nblocks=None, hazards=True):
 
 # hand-written documents for interplays the random blocks rarely produce; appended to every sweep
 TARGETED = [
+    # definitions whose destination is spelled with pointy brackets / escapes (kept in the source spelling), heading text that is
+    # nothing but '#' runs
+    "[foo]: <my url>\n\n[foo] and [x][foo]\n", "[d]: a\\(b\n[e]: <>\n\n[d] and [x][d] [e]\n", "# # #\n\n## ## ##\n\ntext\n\n### # ###\n",
     # a thematic break as the first block of a list item, behind each kind of marker and inside other containers
     "* ---\n* b\n", "- ***\n- b\n\n+ ___\n+ c\n\n1. ---\n2. d\n", "> * ---\n> * b\n\n- * ---\n  * c\n",
     # heading text that ends in a run of '#' (setext source, or an ATX heading with a closing sequence behind it)
